@@ -88,24 +88,29 @@ def verify(k, prop, cls=None, invariants=None, calls=None, hooks=None, extra_pre
             cl = k.clauses(args, pre_st, s1, res, True)
             info.exits.append(('return', path))
             for lab, f in cl.ensures: ob(f'post:{lab}', s1, f, meta={'exit': 'return', 'path': path})
-            if spec.trace_spec is not None:
-                ob('trace:all_expected_calls_were_made', s1, s1.tn == spec.trace_spec[1], kind='trace', meta={'exit': 'return', 'path': path})
+            if spec.trace_spec is not None and spec.trace_spec[2] is not None:
+                ob('trace:all_expected_calls_were_made', s1, s1.tn == spec.trace_spec[2], kind='trace', meta={'exit': 'return', 'path': path})
             if cl.result_pv is not None:
                 ob('post:result', s1, to_val(res, s1) == to_val(cl.result_pv, s1), meta={'exit': 'return', 'path': path})
             for rc in cl.raises:
                 if rc.iff and rc.when is not None:
                     ob(f'raises:{rc.label}/iff', s1, Not(rc.when), meta={'exit': 'return', 'path': path})
+            if k.propagates_delivery_errors:
+                ob('delivery_errors_are_not_swallowed', s1, BoolVal(s1.ghost.get('delivery_failed') is not True),
+                   meta={'exit': 'return', 'path': path})
             _frame(k, ob, pre_st, s1, 'return', path)
             obs.append(Obligation(f'{prop}/{tag}/vacuity:exit{nexit}', list(s1.pc), BoolVal(False), list(s1.labels), 'canary'))
         else:
             exc = fl[1]
             info.exits.append((f'raise {exc.cls}', path))
             cl = k.clauses(args, pre_st, s1, k.result.fresh('noresult') if k.result is not None else P_NONE, True)
-            match = [rc for rc in cl.raises if exc.cls is not None and _exc_covered(exc.cls, rc.cls)]
+            match = [rc for rc in cl.raises if exc.cls is not None and _exc_covered(exc.cls, rc.cls)
+                     and (rc.where is None or (rc.where == 'call') == (exc.where == 'call'))]
             if not match:
                 ob(f'no_unexpected_raise:{exc.cls}', s1, BoolVal(False),
                    meta={'exit': f'raise {exc.cls}', 'path': path, 'where': exc.where})
                 continue
+            ob(f'raises:{match[0].label}/declared_exit', s1, BoolVal(True), meta={'exit': f'raise {exc.cls}', 'path': path})
             whens = [rc.when for rc in match if rc.when is not None]
             if whens and len(whens) == len(match):
                 ob(f'raises:{match[0].label}/when', s1, Or(*whens) if len(whens) > 1 else whens[0],
